@@ -57,6 +57,11 @@ WRAPS = [
     "class ZzD:\n    @staticmethod\n    @zz_deco\n    def zz_m(token='hunter2'):\n        {c}",
     "@zz_deco\nclass ZzE:\n    password = 'hunter2'\n    def zz_m(self):\n        {c}",
     "@zz_deco\nasync def zz_ad(*, secret='hunter2'):\n    {c}",
+    # flagged strings on later lines of left-nested expressions (the inner and the outer expression start at the same place)
+    "zz_p = (zz_root + '/cache' +\n        '/tmp/zz_build' +\n        '/var/tmp/zz_more')\n{c}",
+    "zz_q = zz_d['k'][\n    '0.0.0.0'][\n    '/tmp/zz_k']\n{c}",
+    "zz_s = '-'.join(zz_x).format(\n    '/var/tmp/zz_f').strip(\n    '0.0.0.0')\n{c}",
+    "zz_t = zz_a.b(\n    '/tmp/zz_1')(\n    '/tmp/zz_2')(\n    {c})",
 ]
 
 
